@@ -181,7 +181,7 @@ def meta_cfgs():
             elif kind == 'pow2':
                 for e in range(256):
                     out.append({'type': t, 'mode': 'one', 'name': nm, 'kind': 'pow2', 'exp': e})
-                for kd in ('real', 'str', 'None'):
+                for kd in ('real', 'str', 'None', 'any-int', 'bool'):
                     out.append({'type': t, 'mode': 'one', 'name': nm, 'kind': kd})
             elif kind == 'bytes':
                 for kd in DATA_KINDS:
@@ -208,7 +208,12 @@ def meta_value(h, t, nm, kind, cfg, prefix='new_'):
             return v, M.in_domain(t, nm, V(v))
         return v, False
     if kind == 'bool':
-        return h.bool(name), (base == 'int')
+        b = h.bool(name)
+        return b, (V(b) if base == 'pow2' else base == 'int')      # True == 1 == 2**0 is in the domain, False == 0 is not
+    if kind == 'any-int':
+        # ANY integer for the power-of-two attribute: accepted exactly when it is one of 2**0 .. 2**255
+        v = h.int(name)
+        return v, Or(*[V(v) == 2 ** k for k in range(256)])
     if kind == 'real':
         return h.real(name), False
     if kind == 'str':
@@ -390,6 +395,66 @@ class MetaInit(Contract):
         if not parts:
             return False
         return AnyOf(parts)
+
+
+def _setattr_cfgs():
+    out = [c for c in meta_cfgs() if c['mode'] == 'one']
+    for t in M.ALL_META:
+        out.append({'type': t, 'mode': 'unknown'})
+        out.append({'type': t, 'mode': 'type'})
+    return tuple(out)
+
+
+@contract
+class MetaSetattr(Contract):
+    """checked assignment on an ARBITRARY valid meta message (so: after any history of accepted assignments): a value is
+    stored exactly when it lies in the documented domain of the attribute, the other attributes keep their values, and a
+    rejected assignment (ValueError / TypeError; AttributeError for `type` and unknown names) changes nothing."""
+    target = 'mido.midifiles.meta:MetaMessage._setattr'
+    properties = ('C09',)
+    configs = _setattr_cfgs()
+    loops = {SSC: _SeqSpecCheckLoop()}
+    raises = {ValueError: 'rejected', TypeError: 'rejected', AttributeError: 'no_such_attribute'}
+
+    def inputs(self, h, cfg):
+        t = cfg['type']
+        h.cfg = {}
+        h.m = valid_meta(h, t, 'old_')
+        if cfg['mode'] == 'one':
+            h.name = cfg['name']
+            h.value, h.ok = meta_value(h, t, cfg['name'], cfg['kind'], cfg)
+        elif cfg['mode'] == 'unknown':
+            h.name, h.value, h.ok = 'bogus_attribute', 1, False
+        else:
+            h.name, h.value, h.ok = 'type', t, False
+        return [h.m, h.name, h.value], {}
+
+    def _unchanged(self, h):
+        from .c_state import unchanged
+        return unchanged(attrs_of(h.m), h.attrs0)
+
+    def ensures(self, h, cfg, a, r):
+        attrs = attrs_of(h.m)
+        out = {'returns-None': r is None, 'accepted-only-if-documented': h.ok,
+               'attribute-set-unchanged': set(attrs.keys()) == set(h.attrs0.keys())}
+        if not out['attribute-set-unchanged'] or h.name not in attrs:
+            return out
+        out['stored-as-given'] = same(attrs[h.name], h.value)
+        for k in h.attrs0:
+            if k != h.name:
+                out['other-attribute-kept.' + k] = same(attrs[k], h.attrs0[k])
+        return out
+
+    def rejected(self, h, cfg, a, pr):
+        c = h.ok
+        bad = Not(c) if not isinstance(c, All) else Ex(c.lo, c.hi, lambda k, c=c: Not(c.f(k)))
+        return [bad, self._unchanged(h)]
+
+    def no_such_attribute(self, h, cfg, a, pr):
+        return [cfg['mode'] in ('unknown', 'type'), self._unchanged(h)]
+
+    def samples(self, cfg):
+        return []
 
 
 def _valid_cfgs():
